@@ -129,15 +129,15 @@ type VerifRecord struct {
 
 // VerifVoterState is the in-memory state the properties speak about.
 type VerifVoterState struct {
-	Round                                                 *big.Int
-	RoundIndex, Step                                      uint32
+	Round                                                  *big.Int
+	RoundIndex, Step                                       uint32
 	Precommitted, Committed, SentChangeEvent, Certificated bool
-	ShouldCert                                            bool
-	NextMarked, CurMarked, NextVoted                      *common.Hash // block hashes, nil when unset
-	DBRound                                               *big.Int
-	DBRoundIndex                                          uint32
-	DBMarks                                               map[VoteType]uint8
-	Wrappers                                              []RoundIndexHash
+	ShouldCert                                             bool
+	NextMarked, CurMarked, NextVoted                       *common.Hash // block hashes, nil when unset
+	DBRound                                                *big.Int
+	DBRoundIndex                                           uint32
+	DBMarks                                                map[VoteType]uint8
+	Wrappers                                               []RoundIndexHash
 }
 
 // VerifVoteMsg describes one received vote.
